@@ -545,6 +545,7 @@ func (p *ProjectRunner) shutDownAndWait(shutdownOrder []*Process) {
 
 func (p *ProjectRunner) ShutDownProject() error {
 	verifYield("shutdown.enter", "")
+	defer verifYield("shutdown.return", "")
 	p.runProcMutex.Lock()
 	defer p.runProcMutex.Unlock()
 
